@@ -80,3 +80,17 @@ def tt_skeleton(value, d):
         if x is not None and x.as_int() is not None and x.as_int() != 1:
             return 'violation', '%s bond is %r' % (nm, x)
     return 'ok', ''
+
+
+def cmp3(got, want):
+    """Three-valued comparison of two size polynomials: 'ok' when they are the
+    same, 'violation' only when they definitely differ (over free symbols),
+    'unknown' when an opaque atom is involved."""
+    from ..poly import same, definitely_differ
+    if got is None or want is None:
+        return 'unknown'
+    if same(got, want):
+        return 'ok'
+    if definitely_differ(got, want):
+        return 'violation'
+    return 'unknown'
